@@ -351,10 +351,10 @@ func main() {
 	samples = append(samples, map[string]any{"ascii_reference_files": "LF/CRLF, %g/%e/%.9f, leading blanks and tabs, 1/2/7/40 facets"})
 	c.Finish(vlib.Coverage{
 		States: states, Transitions: trans, Evaluations: states, Nontrivial: states - 1,
-		Rule:       "states = triangle lists (and path histories / reference files) written and read back; transitions = vertices compared bit-for-bit; non-trivial = non-empty lists",
-		Samples:    samples,
-		Exhaustive: true,
-		Bounds:     map[string]any{"coordinate_menu": len(V), "vertices": len(verts), "menu_triangles": len(menu), "list_lengths": "0,1,2 over the menu; 81..1000 (70000 thorough); one file of 1000"},
+		Rule:        "states = triangle lists (and path histories / reference files) written and read back; transitions = vertices compared bit-for-bit; non-trivial = non-empty lists",
+		Samples:     samples,
+		Exhaustive:  true,
+		Bounds:      map[string]any{"coordinate_menu": len(V), "vertices": len(verts), "menu_triangles": len(menu), "list_lengths": "0,1,2 over the menu; 81..1000 (70000 thorough); one file of 1000"},
 		Assumptions: []string{"normals are checked for triangles with |coordinates| <= 1e6 whose edges are not collinear within 1e-6 (independent float64 cross product)", "the streaming writer is driven by a scripted renderer writing batches of 1-5 triangles interleaved with empty batches"},
 	})
 }
